@@ -194,11 +194,12 @@ def tasks_for(tier, seed):
     encs = ['dense', 'csr', 'csc']
     factors = dict(bootstrap_factor=[0.3, 0.6, 1.0], bootstrap_iteration=[1, 8], n_runners_up=[0, 3],
                    chunk_size=[5, 18], n_processors=[1, 2], rng_seed=[11, 2024],
-                   bootstrap_factor_lookup=[None, 'per-level'])
+                   bootstrap_factor_lookup=[None, 'per-level'], max_gb=[1.0, 1.0e-6])
     out = []
     for i, s in enumerate(shapes):
         cfgs = c01.covering_sample(factors, 2 if quick else 10, rng)
-        out.append(dict(seed=int(seed) + i, world=dict(taxonomy=s, encoding=encs[(i + seed) % 3], n_query=14),
+        extra = dict(name_mapper='partial') if s in ('d3_bal', 'd3_prefix') else {}
+        out.append(dict(seed=int(seed) + i, world=dict(taxonomy=s, encoding=encs[(i + seed) % 3], n_query=14, **extra),
                         configs=cfgs))
     if not quick:
         for r in range(8):
